@@ -10,6 +10,42 @@ n_g == << "g" >>  n_x == << "x" >>  n_y == << "y" >>  n_z == << "z" >>  n_k == <
 n_acc == << "a", "c", "c" >>
 
 NoEnv == << >>
+NoPrelude == << >>
+
+(* ---- AST shorthands and preludes ---- *)
+L(v) == Lit(v)
+S(n) == Sym(n)
+TupE(fs) == [e |-> "tuple", flds |-> fs]
+F(n, x) == [nm |-> n, ex |-> x]
+ListE(xs) == [e |-> "list", xs |-> xs]
+FuncE(ps, body) == [e |-> "func", ps |-> ps, body |-> body]
+LetS(n, x) == [s |-> "let", nm |-> n, x |-> x]
+n_t == << "t" >>  n_u == << "u" >>  n_l == << "l" >>  n_m == << "m" >>  n_s == << "s" >>
+n_inc == << "i", "n", "c" >>  n_add == << "a", "d", "d" >>  n_kv == << "k", "v" >>  n_red == << "r", "e", "d" >>
+n_pos == << "p", "o", "s" >>  n_dup == << "d", "u", "p" >>  n_red3 == << "r", "e", "d", "3" >>  n_cap == << "c", "a", "p" >>
+
+(* let t = {a = 1, b = "x"}; let u = {b = "y", a = 2}; let l = [1, "a", 2]; *)
+PreData == << LetS(n_t, TupE(<< F(n_a, L(IntV(1))), F(n_b, L(StrV(<< "x" >>))) >>)),
+              LetS(n_u, TupE(<< F(n_b, L(StrV(<< "y" >>))), F(n_a, L(IntV(2))) >>)),
+              LetS(n_l, ListE(<< L(IntV(1)), L(StrV(<< "a" >>)), L(IntV(2)) >>)) >>
+(* let c = 10; let inc = func (x) => x + 1; let add = func (x, y) => x + y; let cap = func (x) => x + c; *)
+PreFunc == << LetS(n_c, L(IntV(10))),
+              LetS(n_inc, FuncE(<< n_x >>, Bin("add", S(n_x), L(IntV(1))))),
+              LetS(n_add, FuncE(<< n_x, n_y >>, Bin("add", S(n_x), S(n_y)))),
+              LetS(n_cap, FuncE(<< n_x >>, Bin("add", S(n_x), S(n_c)))) >>
+PreFop3 == << LetS(n_l, ListE(<< L(IntV(1)), L(IntV(2)) >>)),
+              LetS(n_t, TupE(<< F(n_a, L(IntV(1))), F(n_b, L(IntV(2))) >>)),
+              LetS(n_s, L(StrV(<< "a", "b" >>))) >>
+(* functions for map / filter / reduce over lists, tuples and strings *)
+PreFop == << LetS(n_l, ListE(<< L(IntV(1)), L(IntV(2)), L(IntV(3)) >>)),
+             LetS(n_t, TupE(<< F(n_a, L(IntV(1))), F(n_b, L(IntV(2))) >>)),
+             LetS(n_s, L(StrV(<< "a", "b" >>))),
+             LetS(n_inc, FuncE(<< n_x >>, Bin("add", S(n_x), L(IntV(1))))),
+             LetS(n_dup, FuncE(<< n_x >>, Bin("add", S(n_x), S(n_x)))),
+             LetS(n_pos, FuncE(<< n_x >>, Bin("gt", S(n_x), L(IntV(1))))),
+             LetS(n_kv, FuncE(<< n_k, n_v >>, ListE(<< Bin("add", S(n_k), L(StrV(<< "z" >>))), S(n_v) >>))),
+             LetS(n_red, FuncE(<< n_acc, n_x >>, Bin("add", S(n_acc), S(n_x)))),
+             LetS(n_red3, FuncE(<< n_acc, n_k, n_v >>, Bin("add", S(n_acc), S(n_v)))) >>
 
 (* ---- literal pools ---- *)
 LitsSmall == << IntV(0), IntV(1), IntV(2), BoolV(TRUE), BoolV(FALSE), StrV(<< "a" >>), Null >>
@@ -22,6 +58,11 @@ NamesTop == << n_a, n_b, n_c, n_d, n_e, n_f >>
 Names1 == << n_a >>
 Names2 == << n_a, n_b >>
 Names3 == << n_a, n_b, n_c >>
+Lits2 == << IntV(1), StrV(<< "a" >>) >>
+Flds2 == << n_a, n_b >>
+Ops2 == {"add", "eq"}
+Ops1 == {"add"}
+Lits1 == << IntV(1) >>
 Lits3 == << IntV(1), BoolV(TRUE), StrV(<< "a" >>) >>
 Lits4 == << IntV(1), IntV(2), BoolV(FALSE), StrV(<< "a" >>) >>
 LitsInt == << IntV(0), IntV(1), IntV(2), IntV(7) >>
@@ -74,7 +115,14 @@ FamSelect == {"lit", "var", "bin", "select", "not", "let", "exprstmt"}
 FamFunc == {"lit", "var", "bin", "func", "call", "badcall", "let", "select"}
 FamMod == {"lit", "var", "bin", "module", "copy", "dot", "let"}
 FamFop == {"lit", "var", "bin", "func", "fop", "list", "tuple", "let"}
-FamMisc == {"lit", "var", "bin", "fmt", "fmt1", "range", "cast", "is", "fail", "trace", "tuple", "let", "exprstmt"}
+FamMisc == {"lit", "var", "bin", "fmt", "fmtbad", "fmt1", "range", "cast", "is", "fail", "trace", "tuple", "let", "exprstmt"}
+FamFopPre == {"lit", "var", "fop", "let"}
+FamFopInl == {"lit", "var", "bin", "func", "fop", "let"}
+FamCallPre == {"lit", "var", "bin", "call", "badcall", "let", "exprstmt"}
+FamFuncDef == {"lit", "var", "bin", "func", "select", "let"}
+FamModDef == {"lit", "var", "bin", "module", "dot", "letuse"}
+FamFuncUse == {"lit", "var", "bin", "func", "select", "list", "letuse"}
+FamCast == {"lit", "var", "bin", "cast", "let"}
 FamBind == {"lit", "var", "bin", "func", "call", "fmt1", "module", "copy", "let", "badlet", "reserved", "tuple"}
 FamAll == FamOps \cup FamData \cup FamSelect \cup FamFunc \cup FamMod \cup FamFop \cup FamMisc
 =============================================================================
